@@ -439,6 +439,25 @@ Definition link_score (max_width : option Z) (dist len len_score : Z) : option Z
   do l <- div32 len_score len ;;
   add32 dd l.
 
+(* read-fonts postscript/index.rs Index1/Index2::get + read_offset, postscript/charstring.rs callsubr index.
+   usize = 64 bits.  None = trap, Some None = Err(OutOfBounds), positions = byte positions in the offset array. *)
+Definition index_offset_pos (index count off_size : Z) : option (option Z) :=
+  if count <? index then Some None else do p <- chk_u 64 (index * off_size) ;; Some (Some p).
+Definition index_get_positions (index count off_size : Z) : option (option (Z * Z)) :=
+  match index_offset_pos index count off_size with
+  | None => None
+  | Some None => Some None
+  | Some (Some p0) =>                      (* get_offset(index)? is evaluated before index + 1 *)
+      do i1 <- addu64 index 1 ;;
+      match index_offset_pos i1 count off_size with
+      | None => None
+      | Some None => Some None
+      | Some (Some p1) => Some (Some (p0, p1))
+      end
+  end.
+(* (self.stack.pop_i32()? + subrs_index.subr_bias()) as usize *)
+Definition subr_biased_index (v bias : Z) : option Z := do s <- add32 v bias ;; Some (wrap_u 64 s).
+
 (* ---- correspondence case format (harness/src/bin/c20.rs): (op, args, result);
         result [] = the real function panicked, [v..] = returned value(s) ---- *)
 Definition o1 (r : option Z) : list Z := match r with Some v => [v] | None => [] end.
@@ -516,6 +535,10 @@ Definition eval_op (op : Z) (args : list Z) : list Z :=
   | 55, [sg; eg; sc; gid] => oo (cov2_get sg eg sc gid)
   | 56, [ss; es; per_word] => match device_count ss es with Some n => [if per_word =? 0 then 0 else n] | None => [] end
   | 57, [off; len; datalen] => oo (svg_doc_slice off len datalen)
+  | 58, [index; count; off_size] =>      (* Index1 / Index2 ::get(index).is_ok() on a well-formed INDEX *)
+      match index_get_positions index count off_size with
+      | None => [] | Some None => [0] | Some (Some _) => [1]
+      end
   | 33, [a; b] => o1 (fx_add_assign 32 a b)         (* Fixed += / F26Dot6 += *)
   | 34, [a; b] => o1 (fx_sub_assign 32 a b)
   | 35, [a; b] => o1 (fx_add_assign 16 a b)         (* F2Dot14 += *)
